@@ -40,6 +40,8 @@ def capture(fn, args):
             fn(args)
         except SystemExit as e:
             code = e.code
+        except Exception as e:
+            code = f'{type(e).__name__}: {e}'
     return out.getvalue(), code
 
 
@@ -65,7 +67,7 @@ def check_form(year, C, inst):
         yield ('form-name', f'form name {C.form_name!r}')
     # can it need filing?
     fileable = not issubclass(C, InputForm) and (f.pdf_file() is not None or len(f.pdf_fields()) > 0)
-    if not issubclass(C, InputForm):
+    if True:
         class Yes(dict):
             def __getitem__(self, k):
                 return 1e9
@@ -76,12 +78,14 @@ def check_form(year, C, inst):
             if f.needs_filing(Yes()):
                 fileable = True
         except Exception:
-            fileable = True
+            fileable = fileable or not issubclass(C, InputForm)
     if fileable:
         if not isinstance(getattr(C, 'sequence_no', None), int):
             yield ('sequence-no', f'can need filing but sequence_no={getattr(C, "sequence_no", None)!r}')
         if not f.pdf_file() or not os.path.isfile(f.pdf_file()):
             yield ('template', f'can need filing but template {f.pdf_file()!r} does not exist')
+        if not f.pdf_fields():
+            yield ('mappings', 'can need filing but has no PDF mappings')
         elif os.path.basename(os.path.dirname(os.path.abspath(f.pdf_file()))) != f'ty{year}':
             yield ('template-year', f'template {f.pdf_file()} is not in ty{year}')
     # names
